@@ -3,6 +3,7 @@ package gogu
 import (
 	"errors"
 	"fmt"
+	"sort"
 )
 
 // Sum returns the sum of the slice items. These have to satisfy the type constraints declared as Number.
@@ -285,6 +286,16 @@ func Union[T comparable](slice any) ([]T, error) {
 // Each value in the result should be present in each of the provided slices.
 func Intersection[T comparable](params ...[]T) []T {
 	result := []T{}
+	var inl1_v0 [][]T
+	{
+		var slices [][]T = params[1:]
+		_ = slices
+		sort.SliceStable(slices, func(i, j int) bool {
+			return len(slices[i]) < len(slices[j])
+		})
+		inl1_v0 = slices
+	}
+	rest := inl1_v0
 
 	for i := 0; i < len(params[0]); i++ {
 		item := params[0][i]
@@ -292,13 +303,13 @@ func Intersection[T comparable](params ...[]T) []T {
 			continue
 		}
 		var j int
-		for j = 1; j < len(params); j++ {
-			if !Contains(params[j], item) {
+		for j = 0; j < len(rest); j++ {
+			if !Contains(rest[j], item) {
 				break
 			}
 		}
 
-		if j == len(params) {
+		if j == len(rest) {
 			result = append(result, item)
 		}
 	}
@@ -309,6 +320,16 @@ func Intersection[T comparable](params ...[]T) []T {
 // IntersectionBy is like Intersection, except that it accepts and callback function which is invoked on each element of the collection.
 func IntersectionBy[T comparable](fn func(T) T, params ...[]T) []T {
 	result := []T{}
+	var inl2_v0 [][]T
+	{
+		var slices [][]T = params[1:]
+		_ = slices
+		sort.SliceStable(slices, func(i, j int) bool {
+			return len(slices[i]) < len(slices[j])
+		})
+		inl2_v0 = slices
+	}
+	rest := inl2_v0
 
 	for i := 0; i < len(params[0]); i++ {
 		item := params[0][i]
@@ -316,9 +337,9 @@ func IntersectionBy[T comparable](fn func(T) T, params ...[]T) []T {
 			continue
 		}
 		var j int
-		for j = 1; j < len(params); j++ {
+		for j = 0; j < len(rest); j++ {
 			has := func() bool {
-				for _, v := range params[j] {
+				for _, v := range rest[j] {
 					if fn(v) == fn(item) {
 						return true
 					}
@@ -330,7 +351,7 @@ func IntersectionBy[T comparable](fn func(T) T, params ...[]T) []T {
 			}
 		}
 
-		if j == len(params) {
+		if j == len(rest) {
 			result = append(result, item)
 		}
 	}
@@ -461,7 +482,7 @@ func DropRightWhile[T any](slice []T, fn func(T) bool) []T {
 	return result
 }
 
-// groupByIndex groups the items of origSlice by the key found at the same index in mapSlice.
+// MapByIndex
 func mapByIndex[T1 comparable, T2 any](origSlice []T2, mapSlice []T1) map[T1][]T2 {
 	result := make(map[T1][]T2)
 
